@@ -9,7 +9,7 @@ class Unsupported(Exception):
     pass
 
 
-TOK = re.compile(r'\s*(::|=>|==|!=|&&|\|\||[A-Za-z_][A-Za-z0-9_]*!?|\d+|"(?:[^"\\]|\\.)*"|[{}()\[\],;:.&|!=<>_])')
+TOK = re.compile(r'\s*(::|=>|==|!=|&&|\|\||\+=|[A-Za-z_][A-Za-z0-9_]*!?|\d+|"(?:[^"\\]|\\.)*"|[{}()\[\],;:.&|!=<>_])')
 
 
 def tokenize(src):
@@ -199,5 +199,184 @@ def translate(body, env, kind):
     """body: the function body `{ ... }` (comments stripped); kind: 'bool' or 'option' (Option (Option CopyReason), outer none = panic)"""
     p = P(tokenize(body), env); p.kind = kind
     e = p.block()
+    if p.peek() is not None: raise Unsupported('trailing tokens')
+    return e
+
+
+# ---------------------------------------------------------------------------------------------------------------------------
+# statement level: `process_src_entry` / `process_dest_entry` of boss_sync.rs, translated into `PState -> Option PState` functions
+# (`none` = a panic: `update().unwrap()` of a missing key, or the `panic!` arm of `needs_copy`).
+# Subset: `trace!(..);`, the statistics `match` (every arm only touches `ctx.stats.*` - translated to nothing), the four containers'
+# `add` / `update` / `remove`, `match <container>.lookup(&p) { None => .., Some(x) => .. }`, `if needs_delete(a, b, flag) {..} else {..}`,
+# `if let Some(r) = needs_copy(ctx, &p, a, b) {..} [else {..}]`.
+
+CONTAINERS = {'to_delete': 'del', 'to_copy': 'cpy', 'src_entries': 'src', 'dest_entries': 'dst'}
+DEL_REASON = {'DeleteReason::NotOnSource': '.notOnSource', 'DeleteReason::Incompatible': '.incompatible'}
+COPY_REASON = {'CopyReason::SameTimeAndNotSkipped': '.sameTime', 'CopyReason::DestOlder': '.destOlder', 'CopyReason::DestNewer': '.destNewer', 'CopyReason::NotOnDest': '.notOnDest'}
+STATS_WORDS = re.compile(r'ctx|stats|size|saturating_add|add|num_\w+|\w+_total_bytes|\w+_hist|\d+|[.()=]|\+=')
+
+
+class S(P):
+    """statements -> Lean expressions of type `Option PState` over the state variable `s`"""
+
+    def __init__(self, toks, entries):
+        P.__init__(self, toks, {})
+        self.entries = set(entries)      # identifiers that hold an EntryDetails
+        self.reasons = set()             # identifiers bound by `if let Some(r) = needs_copy(..)`
+
+    def entry_arg(self):
+        if self.peek() == '&': self.eat()
+        n = self.eat()
+        if n not in self.entries: raise Unsupported('entry operand ' + n)
+        if self.peek() == '.':
+            self.eat('.'); self.eat('clone'); self.eat('('); self.eat(')')
+        return n
+
+    def key_arg(self):
+        if self.peek() == '&': self.eat()
+        self.eat('p')
+        if self.peek() == '.':
+            self.eat('.'); self.eat('clone'); self.eat('('); self.eat(')')
+
+    def value(self, cont):
+        if cont in ('src', 'dst'):
+            return self.entry_arg()
+        self.eat('('); e = self.entry_arg(); self.eat(',')
+        tok = self.peek()
+        if tok in self.reasons:
+            self.eat(); r = tok
+        else:
+            key = '::'.join(self.path())
+            table = DEL_REASON if cont == 'del' else COPY_REASON
+            if key not in table: raise Unsupported('reason ' + key)
+            r = table[key]
+        self.eat(')')
+        return f'({e}, {r})'
+
+    def stats_stmt(self, enders):
+        """`ctx.stats.<...>` up to one of `enders` at depth 0; only words of the statistics"""
+        if [self.peek(0), self.peek(1), self.peek(2), self.peek(3)] != ['ctx', '.', 'stats', '.']:
+            raise Unsupported(f'statement in the statistics match at {self.t[self.i:self.i + 5]}')
+        depth = 0
+        while True:
+            tok = self.peek()
+            if tok is None: raise Unsupported('unterminated statistics statement')
+            if depth == 0 and tok in enders: return
+            if not STATS_WORDS.fullmatch(tok): raise Unsupported('word in a statistics statement: ' + tok)
+            if tok == '(': depth += 1
+            if tok == ')': depth -= 1
+            self.eat()
+
+    def stats_match(self):
+        self.eat('{')
+        while self.peek() != '}':
+            self.pattern()
+            self.eat('=>')
+            if self.peek() == '{':
+                self.eat('{')
+                while self.peek() != '}':
+                    self.stats_stmt((';',)); self.eat(';')
+                self.eat('}')
+            else:
+                self.stats_stmt((',', '}'))
+            if self.peek() == ',': self.eat(',')
+        self.eat('}')
+
+    def simple(self):
+        """one container operation (no terminator)"""
+        c = self.eat()
+        if c not in CONTAINERS: raise Unsupported('statement starting with ' + c)
+        f = CONTAINERS[c]
+        self.eat('.'); op = self.eat(); self.eat('(')
+        if op == 'add':
+            self.key_arg(); self.eat(','); v = self.value(f); self.eat(')')
+            return f'(some {{ s with {f} := s.{f}.add p {v} }})'
+        if op == 'update':
+            self.key_arg(); self.eat(','); v = self.value(f); self.eat(')')
+            return f'((s.{f}.update p {v}).map fun m => {{ s with {f} := m }})'
+        if op == 'remove':
+            self.key_arg(); self.eat(')')
+            return f'(some {{ s with {f} := s.{f}.remove p }})'
+        raise Unsupported('container operation ' + op)
+
+    def stmt_block(self):
+        self.eat('{')
+        out = []
+        while self.peek() != '}':
+            st = self.stmt()
+            if st is not None: out.append(st)
+        self.eat('}')
+        return self.seq(out)
+
+    @staticmethod
+    def seq(out):
+        if not out: return '(some s)'
+        e = out[-1]
+        for st in reversed(out[:-1]):
+            e = f'(({st}).bind fun s => {e})'
+        return e
+
+    def arm_body(self):
+        """the right-hand side of a match arm: a block, or one container operation"""
+        if self.peek() == '{': return self.stmt_block()
+        return self.simple()
+
+    def stmt(self):
+        tok = self.peek()
+        if tok in ('trace!', 'debug!'):
+            self.eat(); self.skip_parens(); self.eat(';'); return None
+        if tok == 'match':
+            self.eat('match'); scrut = self.eat()
+            if self.peek() == '.':
+                if scrut not in CONTAINERS: raise Unsupported('lookup in ' + scrut)
+                self.eat('.'); self.eat('lookup'); self.eat('('); self.key_arg(); self.eat(')')
+                self.eat('{')
+                arms = {}
+                while self.peek() != '}':
+                    if self.peek() == 'None':
+                        self.eat(); self.eat('=>'); arms['none'] = self.arm_body()
+                    else:
+                        self.eat('Some'); self.eat('('); v = self.eat(); self.eat(')'); self.eat('=>')
+                        if not re.fullmatch(r'[a-z_][a-z0-9_]*', v): raise Unsupported('binder ' + v)
+                        self.entries.add(v)
+                        arms['some'] = (v, self.arm_body())
+                    if self.peek() == ',': self.eat(',')
+                self.eat('}')
+                if set(arms) != {'none', 'some'}: raise Unsupported('arms of a lookup match')
+                v, body = arms['some']
+                return f'(match s.{CONTAINERS[scrut]}.get p with | none => {arms["none"]} | some {v} => {body})'
+            if scrut not in self.entries: raise Unsupported('match on ' + scrut)
+            self.stats_match()
+            return None
+        if tok == 'if':
+            self.eat('if')
+            if self.peek() == 'let':
+                self.eat('let'); self.eat('Some'); self.eat('('); r = self.eat(); self.eat(')'); self.eat('=')
+                if not re.fullmatch(r'[a-z_][a-z0-9_]*', r): raise Unsupported('binder ' + r)
+                self.eat('needs_copy'); self.eat('('); self.eat('ctx'); self.eat(','); self.key_arg(); self.eat(',')
+                a = self.entry_arg(); self.eat(','); b = self.entry_arg(); self.eat(')')
+                self.reasons.add(r)
+                t = self.stmt_block()
+                self.reasons.discard(r)
+                e = '(some s)'
+                if self.peek() == 'else':
+                    self.eat('else'); e = self.stmt_block()
+                return f'(match needsCopySrc c {a} {b} with | none => none | some (some {r}) => {t} | some none => {e})'
+            self.eat('needs_delete'); self.eat('('); a = self.entry_arg(); self.eat(','); b = self.entry_arg(); self.eat(',')
+            self.eat('dest_platform_differentiates_symlinks'); self.eat(')')
+            t = self.stmt_block()
+            e = '(some s)'
+            if self.peek() == 'else':
+                self.eat('else'); e = self.stmt_block()
+            return f'(if needsDeleteSrc c {a} {b} then {t} else {e})'
+        st = self.simple()
+        self.eat(';')
+        return st
+
+
+def translate_proc(body, entry):
+    """body of process_src_entry / process_dest_entry; `entry`: the name of its EntryDetails parameter"""
+    p = S(tokenize(body), [entry])
+    e = p.stmt_block()
     if p.peek() is not None: raise Unsupported('trailing tokens')
     return e
